@@ -740,6 +740,63 @@ var parseCalls = map[string]bool{
 	"(github.com/emersion/go-webdav.ConditionalMatch).MatchETag":   true,
 }
 
+// derivedParsers: functions of the library that hand a parse result on to
+// their caller together with an error result (a helper around ParseDepth,
+// ...). Their callers owe the same test. Computed to a fixpoint.
+var derivedParsersCache map[*Program]map[string]bool
+
+func isParseName(p *Program, name string) bool {
+	if parseCalls[name] {
+		return true
+	}
+	if derivedParsersCache == nil {
+		derivedParsersCache = map[*Program]map[string]bool{}
+	}
+	d, ok := derivedParsersCache[p]
+	if !ok {
+		d = map[string]bool{}
+		derivedParsersCache[p] = d
+		for round := 0; round < 4; round++ {
+			changed := false
+			for _, fn := range p.ModFns {
+				if !inLib(fn) || len(fn.Blocks) == 0 || p.isControlFn(fn) || errorResultIndex(fn.Signature) < 0 || d[fullFnName(fn)] || parseCalls[fullFnName(fn)] {
+					continue
+				}
+				hands := false
+				eachCall(fn, func(site ssa.CallInstruction) {
+					call, ok := site.(*ssa.Call)
+					if !ok {
+						return
+					}
+					n := calleeName(call.Common())
+					if !parseCalls[n] && !d[n] {
+						return
+					}
+					for _, r := range *call.Referrers() {
+						ex, ok := r.(*ssa.Extract)
+						if !ok || isErrorType(ex.Type()) {
+							continue
+						}
+						for _, u := range *ex.Referrers() {
+							if _, isRet := u.(*ssa.Return); isRet {
+								hands = true
+							}
+						}
+					}
+				})
+				if hands {
+					d[fullFnName(fn)] = true
+					changed = true
+				}
+			}
+			if !changed {
+				break
+			}
+		}
+	}
+	return d[name]
+}
+
 var mutatingBackend = map[string]bool{
 	"PutCalendarObject": true, "PutAddressObject": true, "CreateCalendar": true, "CreateAddressBook": true,
 	"DeleteCalendarObject": true, "DeleteAddressObject": true, "DeleteAddressBook": true,
@@ -758,11 +815,6 @@ func isMutatingBackendCall(site ssa.CallInstruction) bool {
 	return n.Obj().Name() == "Backend" || n.Obj().Name() == "FileSystem"
 }
 
-// exemptUnchecked: call sites whose error is deliberately not tested, each
-// with the reason; keyed by function + callee.
-var exemptUnchecked = map[string]string{
-	"internal.isContentXML|mime.ParseMediaType": "on error the media type is the empty string, which selects the 'not XML' branch (the request is then refused or treated as body-less); the value is only compared with constants",
-}
 
 func c13ParseChecked(c *Ctx, pr *PropertyRun) {
 	p := c.P
@@ -789,14 +841,14 @@ func c13ParseChecked(c *Ctx, pr *PropertyRun) {
 			if !ok {
 				return
 			}
-			if parseCalls[calleeName(call.Common())] {
+			if isParseName(p, calleeName(call.Common())) {
 				parses = append(parses, call)
 			}
 		})
 		for _, call := range parses {
 			name := calleeName(call.Common())
 			r.Role("parse-call")
-			if why, ok := exemptUnchecked[fnKey(fn)+"|"+name]; ok {
+			if ok, why := harmlessOnError(call); ok {
 				r.Note("exempt %s in %s: %s", name, fnKey(fn), why)
 				continue
 			}
